@@ -172,7 +172,7 @@ class SqrtLasso(LinearModel, RegressorMixin):
             fit_intercept=False)
         # build path
         if alphas is None:
-            alpha_max = norm(X.T @ y, ord=np.inf) / (np.sqrt(len(y)) * norm(y))
+            alpha_max = norm(X.T @ y, ord=np.inf) / norm(y)
             alphas = alpha_max * np.geomspace(1, eps, n_alphas)
         else:
             n_alphas = len(alphas)
